@@ -167,7 +167,8 @@ class Gen:
         self.nid = 0
         # "single": exactly one duration of the model is bad, through exactly one disallowed symbol, so that
         # every disallowed category is regularly the *only* reason for a rejection; "clean": none is bad
-        self.mode = rng.choices(["free", "single", "clean"], [40, 40, 20])[0]
+        self.mode = rng.choices(["free", "single", "clean"], [40, 40, 20] if stream != "simp" else [15, 65, 20])[0]
+        self.elim_names = []
         self.pending = True
 
     def coef(self):
@@ -195,25 +196,40 @@ class Gen:
 
     def pick(self, pool, lo, hi):
         k = min(len(pool), self.rng.randint(lo, hi))
-        return self.rng.sample(pool, k) if k else []
+        out = []
+        for x in (self.rng.sample(pool, k) if k else []):
+            if x in out:  # pools may weight a symbol by listing it several times; never use one twice (x - x)
+                continue
+            # aliases of one another must not meet in one expression either (d0 - w0 vanishes after substitution)
+            grp = self.elim_names + ["x0", "u0"] if self.elim_names else []
+            if x[0] == "ref" and x[1] in grp and any(y[0] == "ref" and y[1] in grp for y in out):
+                continue
+            out.append(x)
+        return out
 
     def make(self):
         r = self.rng
         S = {}  # name -> {"cat", "dim", "decl"}
         decls = []
 
-        def add(name, cat, text, dim=0):
+        def add(name, cat, text, dim=0, value=None):
             S[name] = {"cat": cat, "dim": dim}
+            if value is not None:
+                S[name]["value"] = value  # [num, den] or a list of them
             if text:
                 decls.append(text)
 
-        add("c0", "const", "constant Real c0 = 2;")
+        simp = self.stream == "simp"
+        skind = r.choice(["alias", "alias", "elim", "values", "alias+values", "elim+values"]) if simp else ""
+        no_pv = self.stream == "cache" or "values" in skind
+        add("c0", "const", "constant Real c0 = 2;", value=[2, 1])
         if r.random() < 0.5:
-            add("c1", "const", "constant Real c1 = 0.5;")
-        add("p0", "param", "parameter Real p0 = 3;")
+            add("c1", "const", "constant Real c1 = 0.5;", value=[1, 2])
+        add("p0", "param", "parameter Real p0 = 3;", value=[3, 1])
         if r.random() < 0.6:
-            add("p1", "param", "parameter Real p1 = 1.5;")
-        add("pv", "param", "parameter Real pv[3] = {1, 2, 4};", 3)
+            add("p1", "param", "parameter Real p1 = 1.5;", value=[3, 2])
+        if not no_pv:
+            add("pv", "param", "parameter Real pv[3] = {1, 2, 4};", 3, value=[[1, 1], [2, 1], [4, 1]])
         add("uf0", "ufix", "input Real uf0(fixed = true);")
         if r.random() < 0.4:
             add("uf1", "ufix", "input Real uf1(fixed = true);")
@@ -226,11 +242,11 @@ class Gen:
             add("y1", "alg", "discrete Real y1;")
         nested = r.random() < 0.45
         if nested:
-            add("s.k", "param", "Sub s;")
+            add("s.k", "param", "Sub s;", value=[2, 1])
             add("s.u", "alg", None)  # nested input: an algebraic variable of the flat model
             add("s.x", "state", None)
             add("s.y", "alg", None)
-        loop = r.random() < (0.5 if self.stream == "main" else 1.0)
+        loop = r.random() < {"main": 0.5, "simp": 0.0, "cache": 0.3}.get(self.stream, 1.0)
         n = r.choice([2, 3])
         if loop:
             add("xv", "state", "Real xv[%d];" % n, n)
@@ -255,11 +271,41 @@ class Gen:
         dis_pool += [["der", ["ref", nm]] for nm, s in S.items() if s["cat"] == "state" and not s["dim"]]
         value_pool = scalar_atoms(("const", "param", "ufix", "ufree", "state", "alg")) + [["time"]]
 
+        def not_bare(e):
+            """`v = w` / `v = -w` would make v an alias under detect_aliases (possibly of an allowed symbol)."""
+            if e[0] in ("ref", "time") or (e[0] == "neg" and e[1][0] in ("ref", "time")):
+                return ["op", "+", e, lit(1)]
+            return e
+
+        alias_eqs = []
+        if simp:
+            # algebraic variables that the simplification passes eliminate; each stays (transitively) dependent
+            # on a disallowed symbol, so the expected verdict is the same with and without the options
+            base = [x for x in scalar_atoms(("state", "ufree"), False)]
+            wdef = not_bare(self.combine([r.choice(base)] + self.pick(allowed_pool, 0, 1)))
+            S["w0"] = {"cat": "alg", "dim": 0, "def": wdef}
+            alias_eqs.append(["eq", ["ref", "w0"], wdef])
+            tgt = r.choice([["ref", "w0"], ["ref", "w0"], ["ref", "x0"], ["ref", "u0"]])
+            sg = r.random() < 0.35
+            S["d0"] = {"cat": "alg", "dim": 0, "def": ["neg", tgt] if sg else tgt}
+            alias_eqs.append(["eq", ["ref", "d0"], S["d0"]["def"]])
+            names = ["w0", "d0"]
+            if r.random() < 0.5:
+                sg = r.random() < 0.35
+                S["d1"] = {"cat": "alg", "dim": 0, "def": ["neg", ["ref", "d0"]] if sg else ["ref", "d0"]}
+                alias_eqs.append(["eq", ["ref", "d1"], S["d1"]["def"]])
+                names.append("d1")
+            decls.extend("Real %s;" % nm for nm in names)
+            self.elim_names = names
+            dis_pool += [["ref", nm] for nm in names] * 4
+            value_pool += [["ref", nm] for nm in names]
+
         def duration(force=None, depth=0):
             if force is None and self.mode != "free":
                 if self.mode == "single" and self.pending and r.random() < 0.5:
                     self.pending = False
-                    one = r.choice(dis_pool) if r.random() < 0.9 else delay(self.combine(self.pick(value_pool, 1, 1)),
+                    one = (["ref", r.choice(self.elim_names)] if self.elim_names and r.random() < 0.75 else
+                           r.choice(dis_pool)) if r.random() < 0.9 else delay(self.combine(self.pick(value_pool, 1, 1)),
                                                                           duration(False, 1))
                     leaves = self.pick(allowed_pool, 0, 2) + [one]
                     r.shuffle(leaves)
@@ -290,13 +336,18 @@ class Gen:
                 continue
             if s["cat"] == "state":
                 eqs.append(["eq", ["der", ["ref", nm]], self.combine(self.pick(value_pool, 1, 3))])
-            elif s["cat"] == "alg":
-                eqs.append(["eq", ["ref", nm], self.combine(self.pick(value_pool, 1, 3))])
+            elif s["cat"] == "alg" and "def" not in s:
+                rhs0 = self.combine(self.pick(value_pool, 1, 3))
+                eqs.append(["eq", ["ref", nm], not_bare(rhs0) if simp else rhs0])
         sub_eqs = []
         if nested:
             sub_eqs = [["eq", ["der", ["ref", "s.x"]], ["ref", "s.u"]],
                        ["eq", ["ref", "s.y"], ["op", "*", ["ref", "s.k"], ["ref", "s.x"]]]]
-            eqs.append(["eq", ["ref", "s.u"], self.combine(self.pick(scalar_atoms(("state", "alg", "ufree"), False), 1, 2))])
+            su = self.combine(self.pick(scalar_atoms(("state", "alg", "ufree"), False), 1, 2))
+            eqs.append(["eq", ["ref", "s.u"], not_bare(su) if simp else su])
+        eqs.extend(alias_eqs)
+        if simp:
+            r.shuffle(eqs)
         # scalar delay equations
         nz = r.randint(1, 3) if self.stream == "main" else r.randint(0, 1)
         if not loop:
@@ -365,6 +416,21 @@ class Gen:
             lines += ["initial equation"] + [render_eq(q) for q in ieqs]
         lines += ["end M;"]
         opts = r.choices([{}, {"unroll_loops": False}, {"expand_mx": True}], [70, 15, 15])[0]
+        if simp:
+            opts = {}
+            if "alias" in skind:
+                opts["detect_aliases"] = True
+            if "elim" in skind:
+                opts.update(expand_mx=True, eliminable_variable_expression="(d|w)[0-9]")
+            if "values" in skind:
+                opts.update(replace_parameter_values=True, replace_constant_values=True)
+                for k in ("replace_parameter_expressions", "replace_constant_expressions", "resolve_parameter_values",
+                          "eliminate_constant_assignments"):
+                    if r.random() < 0.4:
+                        opts[k] = True
+        elif self.stream == "cache":
+            # codegen compiles four C libraries for an accepted model (seconds): sampled
+            opts = {"codegen": True} if r.random() < 0.12 else {"cache": True}
         return {"kind": "text", "stream": self.stream, "name": "M", "text": "\n".join(lines) + "\n", "options": opts,
                 "syms": S, "eqs": sub_eqs + eqs, "ieqs": ieqs}
 
@@ -404,9 +470,11 @@ def expected_reject(case):
 class Point:
     """One exact evaluation point: a value for every scalar element of every model symbol."""
 
-    def __init__(self, rng, model):
+    def __init__(self, rng, model, case=None):
         self.val = {}
         self.vectors = []
+        self.decl = (case or {}).get("syms", {})
+        self.alias = getattr(model, "alias_relation", None)
         self.time = rng.choice(VALS)
         for key in ("states", "der_states", "alg_states", "inputs", "constants", "parameters"):
             vec = []
@@ -422,6 +490,25 @@ class Point:
     def args(self):
         return [float(self.time)] + self.vectors
 
+    def get(self, nm, j, depth=0):
+        """Value of element j of symbol nm; a symbol a simplification pass removed from the model gets the value
+        its declaration (parameter/constant value), its alias class or its defining equation gives it."""
+        if (nm, j) in self.val:
+            return self.val[(nm, j)]
+        if depth > 20:
+            raise KeyError(nm)
+        d = self.decl.get(nm)
+        if d is not None and "value" in d:
+            v = d["value"][j - 1] if d["dim"] else d["value"]
+            return Fraction(v[0], v[1])
+        if self.alias is not None:
+            c, sign = self.alias.canonical_signed(nm)
+            if c != nm:
+                return sign * self.get(c, j, depth + 1)
+        if d is not None and "def" in d:
+            return evaluate(d["def"], self, {}, None, depth + 1)
+        raise KeyError(nm)
+
     def env_json(self):
         return {"time": H.frac_json(self.time),
                 "vals": [[nm, j, q.numerator, q.denominator] for (nm, j), q in sorted(self.val.items())]}
@@ -431,7 +518,7 @@ class Unbound(Exception):
     pass
 
 
-def evaluate(e, pt, pi, lv):
+def evaluate(e, pt, pi, lv, depth=0):
     """Exact value of a source expression; a delay node takes the value of its paired input symbol."""
     t = e[0]
     if t == "lit":
@@ -441,25 +528,25 @@ def evaluate(e, pt, pi, lv):
     if t == "ref":
         if e[1] == "i" and lv is not None:
             return Fraction(lv)
-        return pt.val[(e[1], 0)]
+        return pt.get(e[1], 0, depth)
     if t == "idx":
-        j = evaluate(e[2], pt, pi, lv)
-        return pt.val[(e[1], int(j))]
+        j = evaluate(e[2], pt, pi, lv, depth)
+        return pt.get(e[1], int(j), depth)
     if t == "der":
         x = e[1]
         if x[0] == "ref":
-            return pt.val[("der(%s)" % x[1], 0)]
-        return pt.val[("der(%s)" % x[1], int(evaluate(x[2], pt, pi, lv)))]
+            return pt.get("der(%s)" % x[1], 0, depth)
+        return pt.get("der(%s)" % x[1], int(evaluate(x[2], pt, pi, lv, depth)), depth)
     if t == "neg":
-        return -evaluate(e[1], pt, pi, lv)
+        return -evaluate(e[1], pt, pi, lv, depth)
     if t == "op":
-        a, b = evaluate(e[2], pt, pi, lv), evaluate(e[3], pt, pi, lv)
+        a, b = evaluate(e[2], pt, pi, lv, depth), evaluate(e[3], pt, pi, lv, depth)
         return {"+": a + b, "-": a - b, "*": a * b, "/": a / b if b != 0 else None}[e[1]]
     if t == "delay":
         if e[3] not in pi:
             raise Unbound(e[3])
         nm = "_pymoca_delay_%d" % pi[e[3]]
-        return pt.val[(nm, lv)] if pt.size.get(nm, 1) > 1 else pt.val[(nm, 0)]
+        return pt.get(nm, lv, depth) if pt.size.get(nm, 1) > 1 else pt.get(nm, 0, depth)
     raise HarnessError("bad expr %r" % (e,))
 
 
@@ -484,8 +571,9 @@ def oracle_accepted(ctx, case, model, rng):
     nodes = all_delays(case)
     try:
         f = model.delay_arguments_function
-        pts = [Point(rng, model) for _ in range(2)]
+        pts = [Point(rng, model, case) for _ in range(2)]
         outs = [[flat_out(o) for o in call(f, pt.args())] for pt in pts] if nodes else [[], []]
+        ctx.extra["_c22_last"] = (pts, outs)
         dae = [sorted(flat_out(call(model.dae_residual_function, pt.args())[0])) if model.equations else [] for pt in pts]
         ini = [sorted(flat_out(call(model.initial_residual_function, pt.args())[0])) if model.initial_equations else []
                for pt in pts]
@@ -531,7 +619,9 @@ def oracle_accepted(ctx, case, model, rng):
             return None
         pi[node[3]] = match
         free.discard(match)
-    # residual coherence
+    # residual coherence (not after simplification passes that drop / rewrite equations)
+    if case.get("stream") == "simp":
+        return pi
     for which, eqs, got in (("dae", case["eqs"], dae), ("initial", case["ieqs"], ini)):
         for pt, g in zip(pts, got):
             want = []
@@ -644,36 +734,136 @@ def write_model(ctx, case):
     return d
 
 
+def spec_json(e):
+    """typed JSON (driver format) of a delay-free expression spec."""
+    t = e[0]
+    if t == "lit":
+        return {"t": "lit", "n": e[1][0], "d": e[1][1]}
+    if t == "time":
+        return {"t": "time"}
+    if t == "ref":
+        return {"t": "ref", "name": e[1]}
+    if t == "idx":
+        return {"t": "idx", "name": e[1], "i": spec_json(e[2])}
+    if t == "der":
+        return {"t": "der", "e": spec_json(e[1])}
+    if t == "neg":
+        return {"t": "neg", "e": spec_json(e[1])}
+    if t == "op":
+        return {"t": "bin", "op": e[1], "a": spec_json(e[2]), "b": spec_json(e[3])}
+    raise HarnessError("no typed form for %r" % (e,))
+
+
+def substitution_of(case, model):
+    """The substitution the simplification passes performed: {name: delay-free expression spec} for every declared
+    scalar symbol that left the model's variable lists (from the returned model's lists and alias relation; from the
+    case description when the model was rejected and is not available)."""
+    S, opts = case["syms"], case.get("options") or {}
+    sigma = {}
+    if model is not None:
+        present = set()
+        for key in ("states", "alg_states", "inputs", "constants", "parameters"):
+            present.update(v.symbol.name() for v in getattr(model, key))
+        gone = [nm for nm, d in S.items() if nm not in present and not d["dim"]]
+    else:
+        gone = []
+        if opts.get("replace_parameter_values"):
+            gone += [nm for nm, d in S.items() if d["cat"] == "param" and not d["dim"]]
+        if opts.get("replace_constant_values"):
+            gone += [nm for nm, d in S.items() if d["cat"] == "const" and not d["dim"]]
+        if opts.get("detect_aliases"):
+            gone += [nm for nm, d in S.items() if "def" in d and d["def"][0] in ("ref", "neg")]
+        if opts.get("eliminable_variable_expression"):
+            gone += [nm for nm, d in S.items() if "def" in d]
+    for nm in gone:
+        d = S[nm]
+        if "value" in d:
+            sigma[nm] = ["lit", d["value"]]
+        elif model is not None and model.alias_relation.canonical_signed(nm)[0] != nm:
+            c, sign = model.alias_relation.canonical_signed(nm)
+            sigma[nm] = ["ref", c] if sign > 0 else ["neg", ["ref", c]]
+        elif "def" in d:
+            sigma[nm] = d["def"]
+
+    def resolve(e, depth=0):
+        if depth > 20:
+            raise HarnessError("cyclic substitution")
+        t = e[0]
+        if t == "ref":
+            return resolve(sigma[e[1]], depth + 1) if e[1] in sigma else e
+        if t in ("lit", "time", "der"):
+            return e
+        if t == "idx":
+            return ["idx", e[1], resolve(e[2], depth)]
+        if t == "neg":
+            return ["neg", resolve(e[1], depth)]
+        if t == "op":
+            return ["op", e[1], resolve(e[2], depth), resolve(e[3], depth)]
+        raise HarnessError("bad substitution value %r" % (e,))
+
+    return {nm: resolve(e) for nm, e in sigma.items()}, [nm for nm in gone if nm not in sigma]
+
+
+def one_call(folder, case, store):
+    from pymoca.backends.casadi.api import transfer_model
+    model, raised, msg = None, None, ""
+    try:
+        if store is not None:
+            with H.capture_flat(store):
+                model = transfer_model(folder, case["name"], dict(case.get("options") or {}))
+        else:
+            model = transfer_model(folder, case["name"], dict(case.get("options") or {}))
+    except Exception as e:
+        raised, msg = type(e).__name__, str(e)
+    verdict = "accept" if raised is None else ("reject" if raised == "ValueError" and "Delay durations" in msg
+                                               else "raise:" + raised)
+    return model, verdict, msg
+
+
 def check_case(ctx, case, drv, rng=None):
     import random
     H.quiet_pymoca()
     rng = rng or random.Random(json.dumps(case["text"]))
-    from pymoca.backends.casadi.api import transfer_model
     folder = write_model(ctx, case)
     store = []
-    model, raised, msg = None, None, ""
-    try:
-        with H.capture_flat(store):
-            # capture the equation nodes before the generator can touch them
-            model = transfer_model(folder, case["name"], dict(case.get("options") or {}))
-    except Exception as e:
-        raised, msg = type(e).__name__, str(e)
-    if store:
-        node = store[0]["node"]
-    verdict = "accept" if raised is None else ("reject" if raised == "ValueError" and "Delay durations" in msg else "raise:" + raised)
+    ncalls = 2 if (case.get("options") or {}).get("cache") or (case.get("options") or {}).get("codegen") else 1
     why = expected_reject(case)
-    pi = None
-    if verdict.startswith("raise:"):
-        ctx.violation("transfer_model raised %s (neither acceptance nor the delay-duration rejection)" % raised, case,
-                      expected="reject" if why else "accept", observed="%s: %s" % (raised, msg[:300]), kind="input")
-    elif why and verdict == "accept":
-        ctx.violation("transfer_model accepted a model whose delay duration depends on a disallowed category", case,
-                      expected="ValueError: " + why, observed="accepted", kind="input")
-    elif not why and verdict == "reject":
-        ctx.violation("transfer_model rejected a model whose delay durations depend only on constants, parameters and fixed inputs",
-                      case, expected="accepted", observed="ValueError: " + msg[:200], kind="input")
-    elif verdict == "accept":
-        pi = oracle_accepted(ctx, case, model, rng)
+    verdicts, models = [], []
+    first_outs = None
+    for k in range(ncalls):
+        model, verdict, msg = one_call(folder, case, store if k == 0 else None)
+        verdicts.append(verdict)
+        models.append(model)
+        tag = "" if ncalls == 1 else " (call %d of %d on the same folder)" % (k + 1, ncalls)
+        if verdict.startswith("raise:"):
+            ctx.violation("transfer_model raised %s (neither acceptance nor the delay-duration rejection)%s"
+                          % (verdict[6:], tag), case, expected="reject" if why else "accept",
+                          observed="%s: %s" % (verdict[6:], msg[:300]), kind="input")
+        elif why and verdict == "accept":
+            ctx.violation("transfer_model accepted a model whose delay duration depends on a disallowed category" + tag,
+                          case, expected="ValueError: " + why, observed="accepted; calls so far: %s" % verdicts,
+                          kind="history" if k else "input")
+        elif not why and verdict == "reject":
+            ctx.violation("transfer_model rejected a model whose delay durations depend only on constants, parameters "
+                          "and fixed inputs" + tag, case, expected="accepted", observed="ValueError: " + msg[:200],
+                          kind="input")
+        elif verdict == "accept" and k == 0:
+            ctx.extra.pop("_c22_last", None)
+            oracle_accepted(ctx, case, model, rng)
+            first_outs = ctx.extra.pop("_c22_last", None)
+        elif verdict == "accept" and first_outs is not None:
+            # the cached model must return the same delay arguments as the compiled one
+            pts, outs = first_outs
+            try:
+                outs2 = [[flat_out(o) for o in call(model.delay_arguments_function, pt.args())] for pt in pts]
+            except Exception as e:
+                outs2 = "%s: %s" % (type(e).__name__, str(e)[:200])
+            if list(model.delay_states) != list(models[0].delay_states) or (outs[0] and outs2 != outs):
+                ctx.violation("the cached model's delay states / delay-argument function differ from the compiled model's" + tag,
+                              case, expected=[[str(x) for x in o] for o in outs[0]],
+                              observed=outs2 if isinstance(outs2, str) else [[str(x) for x in o] for o in outs2[0]],
+                              kind="history")
+    verdict, model = verdicts[0], models[0]
     if drv is not None:
         if not store:
             ctx.tie_broken("c22:stage-boundary", "transfer_model did not call tree.annotate_states")
@@ -682,11 +872,16 @@ def check_case(ctx, case, drv, rng=None):
         pts = []
         if verdict == "accept":
             try:
-                pts = [Point(rng, model) for _ in range(2)]
+                pts = [Point(rng, model, case) for _ in range(2)]
             except Exception:
                 pts = []
         try:
             req = model_request(flat, pts)
+            if case.get("stream") == "simp":
+                sigma, removed = substitution_of(case, model)
+                req["subst"] = [{"name": nm, "e": spec_json(e)} for nm, e in sorted(sigma.items())]
+                req["removed"] = removed
+            req["ncalls"] = ncalls
         except Unsupported as e:
             ctx.tie_broken("c22:serialise", "flat AST outside the modelled fragment: %s" % e)
             return verdict
@@ -694,6 +889,9 @@ def check_case(ctx, case, drv, rng=None):
         if not ans.get("ok"):
             raise HarnessError("drv_c22 rejected the case: %s" % str(ans)[:500])
         compare_model(ctx, case, ans, verdict, model, pts)
+        seq = ["returned" if v == "accept" else "raised" for v in verdicts]
+        if ans.get("calls") != seq:
+            ctx.disagreement("delay.calls", case, ans.get("calls"), seq)
     return verdict
 
 
@@ -733,6 +931,12 @@ def nontrivial(case):
 def buckets(ctx, case, verdict):
     ctx.count("stream-" + case["stream"])
     ctx.count("verdict-" + verdict)
+    if case["stream"] in ("simp", "cache"):
+        ctx.count("%s-verdict-%s" % (case["stream"], verdict))
+        for n, lp in all_delays(case):
+            if any(a[0] == "var" and "def" in case["syms"].get(a[1], {}) for a in atoms(n[2], [], None)):
+                ctx.count("duration-mentions-eliminated-variable")
+                break
     why = expected_reject(case)
     if why:
         offenders = set()
@@ -769,7 +973,8 @@ def run(ctx):
         ctx.case(c, nontrivial=True)
         check_case(ctx, c, drv)
     quick = ctx.tier == "quick"
-    plan = [("f1", 4 if quick else 40), ("f2", 3 if quick else 30), ("main", 300 if quick else 5000)]
+    plan = [("f1", 4 if quick else 40), ("f2", 3 if quick else 30), ("cache", 25 if quick else 300),
+            ("simp", 90 if quick else 1500), ("main", 220 if quick else 4000)]
     import random
     for stream, n in plan:
         for i in range(n):
